@@ -25,6 +25,13 @@ POOL = "babylon::ThreadPoolExecutor"
 SCOPE_RE = r"^babylon::BasicExecutor::RunnerScope$"
 
 
+DEPENDS = {
+    "C01": "every accepted task travels through a ConcurrentBoundedQueue",
+    "C02": "workers sleep in the queue's pop and submitters in its push",
+    "C08": "execute() reports the task's result through Future / Promise",
+    "C19": "the worker-local queues are kept in EnumerableThreadLocal",
+}
+
 def units(tier):
     return [lib("executor.cpp"), lib("basic_executor.cpp"), driver("executor.cc"), driver("coroutine.cc")]
 
